@@ -356,7 +356,7 @@ pub fn motifs(rng: &mut Rng, limit: usize) -> Vec<(B, bool)> {
             let Some(j) = nb(i, d) else { continue };
             for (sa, sb) in [(3u8, 1u8), (1, 1), (1, 3), (5, 0), (1, 0), (0, 0), (4, 5), (2, 1)] {
                 for gold_is_a in [true, false] {
-                    for extra in 0..4 {
+                    for extra in 0..6 {
                         let mut b: B = [None; 64];
                         if (sa == 0 && (i / 8 == 0 || i / 8 == 7)) || (sb == 0 && (j / 8 == 0 || j / 8 == 7)) {
                             continue;
@@ -380,6 +380,18 @@ pub fn motifs(rng: &mut Rng, limit: usize) -> Vec<(B, bool)> {
                             3 => {
                                 if let Some(k) = (0..4).filter_map(|d2| nb(i, d2)).find(|k| b[*k].is_none()) {
                                     b[k] = Some((gold_is_a, 1));
+                                }
+                            }
+                            4 | 5 => {
+                                // edge-wrap decoys: a strong unfrozen piece of a's colour on the square that a
+                                // raw (unmasked) horizontal shift would reach across the board edge from i or j
+                                let src = if extra == 4 { j } else { i };
+                                let wrap = if src % 8 == 7 && src + 1 < 64 { Some(src + 1) } else if src % 8 == 0 && src >= 1 { Some(src - 1) } else { None };
+                                match wrap {
+                                    Some(k) if b[k].is_none() => {
+                                        b[k] = Some((gold_is_a, 4));
+                                    }
+                                    _ => continue,
                                 }
                             }
                             _ => {}
